@@ -431,7 +431,9 @@ PROPS = {
                        "the model is the atomic channel (call = one atomic step; blocking call = register + complete); every state incl. hand-off windows satisfies all invariants; finalize changes only the waiter's own state/wake log; a claimed waiter is invisible to everybody else; one lock acquisition per critical section (extracted); linearizability oracle: outcomes of scheduled runs of small programs must be in the model's outcome set over all interleavings (specexplore)",
                        extra_files=["Kanal/Tie.lean"]),
                 lin=lin_c03),
-    "C09": simple("C09", "proof", lambda tier, seed: fams_c12(tier, seed)[:2] + fams_c18(tier, seed)[:1],
+    "C09": simple("C09", "proof", lambda tier, seed: fams_c12(tier, seed)[:2] + fams_c18(tier, seed)[:1] + [
+                      # deep wait lists behind handles of the other flavour: up to four pending futures per side, cancel any, serve through sync calls
+                      Family("pending-mixed", "exh", "PQSRyv", "0,1", depth=(5 if tier == "quick" else 6), configs=("w:s", "l:a"))],
                   conc_prof("flavours", FLAVOUR_MACROS, ["stuck", "wake", "fifo", "mutex"]),
                   lambda d: True,
                   "flavour does not exist in the model: every invariant is over Reach with arbitrary alternation of sync/async labels; wake path chosen by the waiter's kind; hand-off uniform in the waiter's kind; conversions are the identity; handles are repr(C) one-field wrappers (extracted)",
